@@ -21,7 +21,7 @@ import refrun
 from session import run_session, split_by_request, project
 
 PATH = "/tmp/verif_c27.gdn"
-VALUE_KINDS = ("int", "str", "bool", "var", "paren", "bin", "list", "tuple", "ctor", "call", "mcall")
+VALUE_KINDS = ("int", "str", "bool", "var", "paren", "bin", "list", "tuple", "ctor", "call", "mcall", "dot", "slit")
 
 
 def candidates(main):
@@ -79,6 +79,10 @@ def probe_offset(t):
         return t["recv"]["end"]           # the dot
     if k == "ctor":
         return t["start"] + len(t["n"])   # the opening parenthesis of the payload
+    if k == "dot":
+        return t["e"]["end"]              # the dot
+    if k == "slit":
+        return t["start"] + len(t["n"])   # the opening brace
     raise ValueError(k)
 
 
@@ -88,10 +92,12 @@ def render_case(prog, form):
     w = gen_prog.Writer()
     if prog.get("uses_enum"):
         w.w("enum E1 { A1, B1(Int), C1 }\n")
+    if prog.get("uses_struct"):
+        w.w("struct P1 { x: Int, y: String }\n")
     for f in prog["funs"]:
         f["line"] = w.line
         params = ", ".join(f"{p}: {t}" for p, t in zip(f["ps"], f["pt"]))
-        w.w(f"fun {f['n']}({params}): {f['rt']} {{\n")
+        w.w(f"fun {f['n']}({params})" + (f": {f['rt']}" if f["rt"] else "") + " {\n")
         gen_prog.render_block(w, f["b"], 1)
         w.w("}\n")
     defs = w.text()
@@ -105,7 +111,7 @@ def run(tier, seed):
     ck = Check("C27", "model_checking", tier, seed)
     rnd = random.Random(seed * 271 + 27)
     n = 150 if tier == "quick" else 1500
-    progs, _ = refrun.gen_programs(seed + 127, n, 5, err_rate=0.15, features={"session_safe": True})
+    progs, _ = refrun.gen_programs(seed + 127, n, 5, err_rate=0.15, features={"session_safe": True, "ext": True})
     cases = []
     for p in progs:
         if has_toplevel_return(p["main"]):
